@@ -439,3 +439,7 @@ func init() {
 		return "<base64-of-symbolic-bytes>"
 	}
 }
+
+func init() {
+	externals["("+RepoMod+"/types.ABCIMessageLogs).String"] = func(fr *frame, a []value) value { return "<abci message logs>" }
+}
